@@ -26,11 +26,24 @@ func init() { register("C07", checkC07) }
 // process-fatal event (stack overflow) can be attributed by the driver.
 type journal struct{ dir string }
 
-func (j journal) write(worker string, id, text string) {
+func (j journal) path(id string) string {
+	return filepath.Join(j.dir, "journal-"+strings.NewReplacer("/", "_", " ", "_").Replace(id)+".txt")
+}
+
+// write records the input of a case that is about to run; done removes the
+// record again, so that only in-flight cases are left if the process dies.
+func (j journal) write(_ string, id, text string) {
 	if j.dir == "" {
 		return
 	}
-	_ = os.WriteFile(filepath.Join(j.dir, "journal-"+worker+".txt"), []byte("case: "+id+"\n"+text), 0o644)
+	_ = os.WriteFile(j.path(id), []byte("case: "+id+"\n"+text), 0o644)
+}
+
+func (j journal) done(id string) {
+	if j.dir == "" {
+		return
+	}
+	_ = os.Remove(j.path(id))
 }
 
 func (j journal) clear() {
@@ -93,6 +106,7 @@ func checkC07(c *run.Ctx) {
 	ncyc := c.N(12000, 400000)
 	const budget = 10000
 	runCase := func(phase string, i int, r *rand.Rand, cycles bool) {
+		defer jr.done(run.CaseID(phase, i))
 		o := gen.GraphOpts{Cycles: cycles, StringKeys: i%3 == 0, NoRepeatedMerge: i%3 == 0, Big: i%5 == 0, MaxAnchors: []int{12, 12, 4, 30}[i%4]}
 		g := gen.AnchorGraph(r, o)
 		id := run.CaseID(phase, i)
@@ -275,6 +289,9 @@ func checkC07(c *run.Ctx) {
 	}
 	for _, sh := range shapes {
 		id := "shape/" + sh.name
+		if c.Only != "" && c.Only != id {
+			continue
+		}
 		jr.write("shape", id, sh.text)
 		for _, via := range []string{"DecodeYAML", "Parse"} {
 			var derr error
@@ -304,6 +321,7 @@ func checkC07(c *run.Ctx) {
 			}
 			c.Count("hand_written_shapes", 1)
 		}
+		jr.done(id)
 	}
 	jr.clear()
 	c.Finish("exploration",
